@@ -2,7 +2,8 @@
    Only statements; every proof is [exact] of a lemma from Proofs/TraceFacts.v.
    [parse_trace tbl d] is the model of io_drawer.trace.parse_trace_data (Model/Trace.v) over the parsed
    trace-string table [tbl]; the right-hand sides are specification-side definitions (Spec/TraceSpec.v). *)
-From Coq Require Import List NArith Bool Arith.
+From Coq Require Import List NArith ZArith Bool Arith.
+From PV Require Gen.Regexes Spec.PublishedRegexes Model.StreamProg Gen.Readers Proofs.ReaderProgFacts.
 From PV Require Import Base.Bytes Base.Lit Model.Hexdump Model.TraceFmt Model.Trace Spec.TraceSpec Gen.Tables
                        Proofs.TraceFacts.
 Import ListNotations.
@@ -118,6 +119,41 @@ Print Assumptions C15_binary_is_model.
 Theorem C15_binary_is_spec : forall tbl b, snd (spec_answer tbl b) = expected_lines tbl b.
 Proof. exact spec_answer_lines. Qed.
 Print Assumptions C15_binary_is_spec.
+
+
+(* a string-file line is <hash>||<message>||<location> by the published regular expression (greedy message) *)
+Theorem C15_source_line_regex :
+  Gen.Regexes.re_LINE_RE = Spec.PublishedRegexes.re_LINE_RE.
+Proof. repeat split; reflexivity. Qed.
+Print Assumptions C15_source_line_regex.
+
+(* SOURCE-TEXT tie of the two stream readers.  harness/extract_readers.py translates the statements of
+   TraceBufferHeader.read and TraceEntry.read (io_drawer/trace.py) into programs of the reader language of Model/StreamProg.v
+   (Gen/Readers.v, regenerated every run).  For EVERY byte string, running the translated program is the model's reader:
+   it returns True exactly when header_read / entry_read succeeds, and then the attributes it has assigned (self.ver ...
+   self.next_free, self.comp after the ascii/rstrip conversions; self.tbh ... self.line, self.data), the bytes consumed and the
+   bytes left are the model's; it returns False exactly when the model's reader fails; and it never runs into a DataStream
+   assertion or a statement outside the translated fragment. *)
+Theorem C15_source_header_reader : forall d,
+  match StreamProg.run Gen.Readers.prog_trace_header (StreamProg.init d) with
+  | StreamProg.RRet true s => header_read d = Some (ReaderProgFacts.header_of s, StreamProg.s_rest s) /\ StreamProg.s_idx s = 32%Z
+  | StreamProg.RRet false _ => header_read d = None
+  | _ => False
+  end.
+Proof. exact ReaderProgFacts.header_prog_correct. Qed.
+Print Assumptions C15_source_header_reader.
+Theorem C15_source_entry_reader : forall d,
+  match StreamProg.run Gen.Readers.prog_trace_entry (StreamProg.init d) with
+  | StreamProg.RRet true s =>
+      entry_read d = Some (ReaderProgFacts.entry_of s, Z.to_N (StreamProg.s_idx s), StreamProg.s_rest s)
+  | StreamProg.RRet false _ => entry_read d = None
+  | _ => False
+  end.
+Proof. exact ReaderProgFacts.entry_prog_correct. Qed.
+Print Assumptions C15_source_entry_reader.
+Theorem C15_source_streams : Gen.Readers.ok_readers = true /\ Gen.Readers.streams_big_unsigned = true.
+Proof. split; reflexivity. Qed.
+Print Assumptions C15_source_streams.
 
 (* non-vacuity: a concrete well-formed buffer (exact, partial and unknown hash; text and binary entries;
    data lengths 8, 3, 0, 5) satisfies the hypotheses and is displayed as specified, by computation *)
